@@ -28,7 +28,7 @@ FLAVOURS = {
                                      "-fno-omit-frame-pointer", "-D_GLIBCXX_ASSERTIONS", "-DVF_ASAN"], "ld": ["-fsanitize=address,undefined"]},
     "tsan": {"cxx": "g++", "flags": ["-std=c++14", "-O1", "-g1", "-fsanitize=thread"], "drv_extra": ["-DVF_FREERUN"], "ld": ["-fsanitize=thread"]},
     # scheduling points at every entry/exit of a library function; the harness itself is not instrumented
-    "sched": {"cxx": "g++", "flags": ["-std=c++14", "-O1", "-g1"], "lib_extra": ["-finstrument-functions", "-finstrument-functions-exclude-file-list=/usr/include,/usr/lib"], "ld": []},
+    "sched": {"cxx": "g++", "flags": ["-std=c++14", "-O1", "-g1"], "lib_extra": ["-finstrument-functions", "-finstrument-functions-exclude-file-list=/usr/include,/usr/lib"], "ld": ["-Wl,-z,now"]},   # eager binding: the per-schedule children do not resolve symbols again
 }
 ASAN_ENV = {"ASAN_OPTIONS": "halt_on_error=0:detect_leaks=0:abort_on_error=0:print_summary=1:allocator_may_return_null=1:max_allocation_size_mb=2048",
             "UBSAN_OPTIONS": "print_stacktrace=1:halt_on_error=1"}
